@@ -20,11 +20,14 @@ import (
 	"encoding/json"
 	"fmt"
 	"os"
+	"sort"
+	"strconv"
 	"strings"
 	"sync/atomic"
 	"time"
 
 	"github.com/dapr/kit/byteslicepool"
+	"github.com/dapr/kit/logger"
 	enc "github.com/dapr/kit/schemes/enc/v1"
 	"github.com/dapr/kit/verifhook"
 
@@ -142,8 +145,18 @@ func (c *chunkReader) Read(b []byte) (int, error) {
 	return c.r.Read(b)
 }
 
+// modelVariant is a self-test switch: C08_MODEL_VARIANT=prefix makes the driver run the model of
+// the code as found instead of the model selected by the regenerated facts (the check must then
+// report disagreements).
+var modelVariant = func() string {
+	if v := os.Getenv("C08_MODEL_VARIANT"); v != "" {
+		return " variant=" + v
+	}
+	return ""
+}()
+
 func (c rhCase) line() string {
-	return fmt.Sprintf("rh doc=%s chunk=%d", c.Doc, c.Chunk)
+	return fmt.Sprintf("rh doc=%s chunk=%d", c.Doc, c.Chunk) + modelVariant
 }
 
 // runRH calls the real readHeader and canonicalises what it returned.
@@ -289,8 +302,11 @@ func main() {
 	checkRH(res, drv, rhCases)
 	checkForcedModel(res, drv, forced)
 
-	// 2. byteslicepool
+	checkInterleaveModel(res, drv, forced, rng, budget)
+
+	// 2. byteslicepool, logger registry
 	checkBsp(res, rng, budget)
+	checkReg(res, drv, rng, f.Seed, budget)
 
 	// 3. mixed concurrent workload against sequential results
 	workers, nops, rounds := 4, 40, 1
@@ -425,7 +441,7 @@ func checkForcedModel(res *lib.Result, drv *lib.Drv, forced []Forced) {
 			}
 			return hex.EncodeToString(append(append([]byte(nil), h...), t...))
 		}
-		line := fmt.Sprintf("forced mode=%s a=%s b=%s", c.Mode, cut(docA), cut(docB))
+		line := fmt.Sprintf("forced mode=%s a=%s b=%s", c.Mode, cut(docA), cut(docB)) + modelVariant
 		out, err := drv.Ask(line)
 		if err != nil {
 			res.Disagree("driver", c, "answers", err.Error())
@@ -444,6 +460,120 @@ func checkForcedModel(res *lib.Result, drv *lib.Drv, forced []Forced) {
 		res.Traces++
 		if m != impl {
 			res.Disagree("forced schedule: does A's / B's result differ from its run alone", c, got, impl)
+		}
+	}
+}
+
+// checkInterleaveModel: model self-consistency on pseudo-random schedules with pseudo-random pool
+// choices (the executable semantics must agree with what pipelines_independent proves of it).
+func checkInterleaveModel(res *lib.Result, drv *lib.Drv, forced []Forced, rng *lib.Rand, budget int) {
+	if drv == nil {
+		return
+	}
+	var docs []string
+	for _, c := range forced {
+		if len(docs) >= 6 || c.A.PlainLen > 600 {
+			continue
+		}
+		d, _ := c.A.EncryptDoc()
+		if d != nil {
+			docs = append(docs, hex.EncodeToString(d))
+		}
+	}
+	if len(docs) < 2 {
+		return
+	}
+	for i := 0; i < 6*budget; i++ {
+		k := rng.Range(2, len(docs))
+		line := fmt.Sprintf("interleave seed=%d docs=%s", rng.U64()%1000000, strings.Join(docs[:k], ",")) + modelVariant
+		out, err := drv.Ask(line)
+		if err != nil {
+			res.Disagree("driver", line, "answers", err.Error())
+			return
+		}
+		res.Hit("model-interleave")
+		if !strings.HasPrefix(out, "a=same b=same access=ok") {
+			res.Disagree("model self-consistency: random interleaving of Decrypt threads in the executable semantics (theorem enc_pipelines_independent)", line, out, "a=same b=same access=ok")
+		}
+	}
+}
+
+// checkReg: the registry specification against the real NewLogger / getLoggers, sequentially, on
+// names nobody else uses.
+func checkReg(res *lib.Result, drv *lib.Drv, rng *lib.Rand, seed uint64, budget int) {
+	for ci := 0; ci < 20*budget; ci++ {
+		n := rng.Range(1, 12)
+		toks := make([]string, n)
+		for i := range toks {
+			if rng.Intn(4) == 0 {
+				toks[i] = "s"
+			} else {
+				toks[i] = "n" + strconv.Itoa(rng.Intn(4))
+			}
+		}
+		prefix := fmt.Sprintf("c08reg.%d.%d.%d.", seed, os.Getpid(), ci)
+		rank := map[logger.Logger]int{}
+		var outs []string
+		g := wl.Guard(20*time.Second, func() string {
+			for _, t := range toks {
+				if t == "s" {
+					snap := logger.VerifC08GetLoggers()
+					type rk struct{ r, k int }
+					var l []rk
+					bad := false
+					for name, inst := range snap {
+						if !strings.HasPrefix(name, prefix) {
+							continue
+						}
+						k, _ := strconv.Atoi(strings.TrimPrefix(name, prefix))
+						r, ok := rank[inst]
+						if !ok {
+							bad = true
+						}
+						l = append(l, rk{r, k})
+					}
+					sort.Slice(l, func(i, j int) bool { return l[i].r < l[j].r })
+					ks := make([]string, len(l))
+					for i, x := range l {
+						ks[i] = strconv.Itoa(x.k)
+					}
+					o := "s:" + strings.Join(ks, ".")
+					if bad {
+						o += "!unknown-instance"
+					}
+					outs = append(outs, o)
+					continue
+				}
+				inst := logger.NewLogger(prefix + t[1:])
+				r, ok := rank[inst]
+				if !ok {
+					r = len(rank)
+					rank[inst] = r
+				}
+				outs = append(outs, "id:"+strconv.Itoa(r))
+			}
+			return "ok"
+		})
+		impl := strings.Join(outs, " ")
+		if g != "ok" {
+			impl = g
+		}
+		line := "reg ops=" + strings.Join(toks, ",")
+		res.Count(line, true)
+		res.Hit("reg:len=" + strconv.Itoa(n/4*4) + "+")
+		if drv != nil {
+			out, err := drv.Ask(line)
+			if err != nil {
+				res.Disagree("driver", line, "answers", err.Error())
+				return
+			}
+			res.Traces++
+			if out != impl {
+				res.Disagree("logger registry: NewLogger identities and getLoggers snapshot vs the sequential specification", map[string]any{"kind": "reg", "ops": toks}, out, impl)
+			}
+		}
+		if ci == 0 {
+			res.Sample(map[string]any{"kind": "reg", "ops": toks, "impl": impl})
 		}
 	}
 }
